@@ -126,6 +126,20 @@ TABLE += [
       mutant='mutant: new Dot3\\(stream\\.pointer\\(\\), stream\\.size\\(\\)\\) ==> new Dot3(stream.pointer(), stream.size() + 2)'),
 ]
 
+EAPOL_CONSTS = 'enum { key_iv_size = 16, key_sign_size = 16, nonce_size = 32, mic_size = 16, rsc_size = 8, id_size = 8 }; /* EAPOL static const sizes (eapol.h) */'
+TABLE += [
+ dict(cls='EAPOL', src='src/eapol.cpp', hdr='include/tins/eapol.h', structs=['eapol_header'], members='eapol_header header_;'),
+ dict(cls='RC4EAPOL', src='src/eapol.cpp', hdr='include/tins/eapol.h', structs=['eapol_header', 'rc4_eapol_header'], members='eapol_header base_header_; rc4_eapol_header header_;',
+      predecl=EAPOL_CONSTS, news=['RawPDU'], inits='inits: lower', memberlist='members: header_ key_',
+      xfuncs='//@ func include/tins/eapol.h RC4EAPOL::key_length match "key_length() const"\nsig: static uint16_t RC4EAPOL_key_length(const RC4EAPOL* this)\nclass: RC4EAPOL include/tins/eapol.h\nmembers: header_\n//@ endfunc',
+      rules='rule: IMS_read_buf\\(&stream, this->key_, RC4EAPOL_key_length\\(this\\)\\) ==> IMS_read_vec(&stream, RC4EAPOL_key_length(this))',
+      mutant='mutant: stream\\.size\\(\\) >= key_length\\(\\) ==> true'),
+ dict(cls='RSNEAPOL', src='src/eapol.cpp', hdr='include/tins/eapol.h', structs=['eapol_header', 'rsn_eapol_header'], members='eapol_header base_header_; rsn_eapol_header header_;',
+      predecl=EAPOL_CONSTS, news=['RawPDU'], inits='inits: lower', memberlist='members: header_ key_',
+      xfuncs='//@ func include/tins/eapol.h RSNEAPOL::wpa_length match "wpa_length() const"\nsig: static uint16_t RSNEAPOL_wpa_length(const RSNEAPOL* this)\nclass: RSNEAPOL include/tins/eapol.h\nmembers: header_\n//@ endfunc',
+      rules='rule: IMS_read_buf\\(&stream, this->key_, RSNEAPOL_wpa_length\\(this\\)\\) ==> IMS_read_vec(&stream, RSNEAPOL_wpa_length(this))'),
+]
+
 
 def generate(outdir, tier):
     paths = []
